@@ -36,7 +36,7 @@ META = {
     "level_note": "Real links are a seeded sample; the model is exhaustive within its bound. AArch64 outputs are parsed, not executed. Trusted base: TLC, vlib/ehframe.py (cross-checked on GNU ld outputs in every run).",
     "engine": "tlc",
 }
-BAD_VARIANTS = ["keep-unloaded", "keep-empty", "no-sort", "lose-row", "cie-not-rewritten"]
+BAD_VARIANTS = ["keep-unloaded", "keep-empty", "no-sort", "lose-row", "cie-not-rewritten", "advance-before-tail"]
 
 
 def model_check(ctx, cov):
@@ -52,7 +52,7 @@ def model_check(ctx, cov):
             continue
         if not r.ok:
             raise ToolError(f"EhFrame model check failed ({cfg}): {r.violated} {r.error_text}\n{r.trace_text[:3000]}")
-        missing = tlc.zero_coverage_actions(r, ["KeepCie", "KeepFde", "DropFde", "SortRows"])
+        missing = tlc.zero_coverage_actions(r, ["KeepCie", "KeepFde", "DropFde", "EndObject", "SortRows"])
         if missing:
             raise ToolError(f"vacuous model run {cfg}: actions never taken: {missing}")
         states += r.distinct
@@ -60,7 +60,7 @@ def model_check(ctx, cov):
     def bad(v):
         return v, tlc.run_tlc("MCEhFrame", f"mc/EhFrame_bad_{v}.cfg", workers=2, timeout=600, coverage=False, name=f"c10.bad.{v}")
 
-    with ThreadPoolExecutor(max_workers=5) as ex:
+    with ThreadPoolExecutor(max_workers=6) as ex:
         for v, r in ex.map(bad, BAD_VARIANTS):
             if r.ok or r.violated != "DoneTablesOK":
                 raise ToolError(f"broken writer '{v}' was NOT rejected: predicates are vacuous\n" + r.out[-1500:])
@@ -111,7 +111,27 @@ def gen_scenario(rng, i):
     opts.append("--eh-frame-hdr" if rng.random() < 0.88 else "--no-eh-frame-hdr")
     if rng.random() < 0.2:
         opts += ["-z", "max-page-size=0x10000"]
-    return dict(id=f"e{i}", arch=arch, n_objs=n_objs, funcs=funcs, start_calls=start_calls, kind=kind, opts=opts)
+    # an object that holds only the 4-byte .eh_frame end marker (like libgcc's crtend.o), linked
+    # BEFORE other objects with FDEs; every third scenario has one, half of them single-threaded so
+    # that all objects are in one file group
+    endmark_after = None
+    if i % 3 == 0:
+        if n_objs < 2:
+            n_objs = 2
+            funcs[-1]["obj"] = 1
+        if not any(f["cfi"] and not f["empty"] and f["obj"] == n_objs - 1 for f in funcs):
+            funcs.append(dict(name="flast", obj=n_objs - 1, nops=2, cfi=True, signal=False, comdat=False, empty=False,
+                              calls=[], copy="flast"))
+            start_calls.append("flast")
+        endmark_after = rng.randrange(0, n_objs - 1)
+        opts = [o_ for o_ in opts if not o_.startswith("--threads")]
+        if (i // 3) % 2 == 0:
+            opts.append("--threads=1")
+        env = {"WILD_FILES_PER_GROUP": "64"} if (i // 3) % 3 != 2 else {}
+        return dict(id=f"e{i}", arch=arch, n_objs=n_objs, funcs=funcs, start_calls=start_calls, kind=kind, opts=opts,
+                    endmark_after=endmark_after, env=env)
+    return dict(id=f"e{i}", arch=arch, n_objs=n_objs, funcs=funcs, start_calls=start_calls, kind=kind, opts=opts,
+                endmark_after=endmark_after)
 
 
 def fn_len(arch, f, ncalls=None):
@@ -156,6 +176,8 @@ def emit(scn, d):
     for o, parts in texts.items():
         if parts:
             objs.append(asm.write_asm(d, f"o{o}", "\n".join(parts) + "\n", arch=arch))
+        if scn.get("endmark_after") == o:
+            objs.append(asm.write_asm(d, "endmark", '.section .eh_frame,"a",%progbits\n.p2align 2\n.long 0\n', arch=arch))
     args = [str(o) for o in objs]
     if scn["kind"] == "pie":
         args += ["-static", "-pie"]
@@ -378,7 +400,7 @@ def run(ctx):
             sub.mkdir()
             s["dir"] = sub
             s["args"] = emit(s, sub)
-            return s, run_wild(s["args"] + ["-o", str(sub / "out")], cwd=sub, timeout=60)
+            return s, run_wild(s["args"] + ["-o", str(sub / "out")], cwd=sub, timeout=60, env=s.get("env"))
 
         t0 = ctx.elapsed()
         with ThreadPoolExecutor(max_workers=8) as ex:
@@ -479,6 +501,10 @@ def run(ctx):
         if kept == 0 or dropped == 0 or with_hdr < len(obs) // 2 or mut_of is None:
             raise ToolError(f"vacuous population: kept={kept} discarded={dropped} outputs with .eh_frame_hdr={with_hdr}")
         cov["outputs_with_eh_frame_hdr"] = with_hdr
+        marked = [o for o in obs if by_id[o["id"]].get("endmark_after") is not None]
+        cov["links_with_end_marker_object_before_fdes"] = len(marked)
+        if len(marked) < len(obs) // 5:
+            raise ToolError("vacuous population: too few links with an .eh_frame end-marker object in non-last position")
         for o in obs[:2]:
             s = by_id[o["id"]]
             cov["samples"].append({"id": s["id"], "arch": s["arch"], "kind": s["kind"], "opts": s["opts"], "objects": s["n_objs"],
